@@ -128,13 +128,16 @@ func (this *Conn) AddNode(id uint64, address string) {
 	this.addressesMu.Lock()
 	defer this.addressesMu.Unlock()
 
-	if _, exists := this.addresses[id]; !exists {
+	if existing, exists := this.addresses[id]; !exists {
 		this.addresses[id] = address
 		this.sendNodesChangeNotification(&nodesChange {
 			Type: NodesChangeAddNode,
 			NodeId: id,
 		})
 		this.log.Infof("Conn: Added node: %16x", id)
+	} else if existing == "" && address != "" {
+		// A node recorded without an address (older bootstrap entries) becomes reachable
+		this.addresses[id] = address
 	}
 }
 
